@@ -145,4 +145,4 @@ def run(ctx):
     ctx.cov["unproved"] = ["data races and the C memory model are outside the Lean model: the per-thread footprint premise is established from the symbol table "
                            "(writable globals) and explored with ThreadSanitizer, not proved for heap objects reachable from two nlopt_opt (which the API never creates: C15)"]
     ctx.assumptions += ["user callbacks touch only their own data", "nlopt_srand is called by each thread for itself (thread-local generator)"]
-    return ctx.finish(level="other", extra_cov={"rule": "a case = one job under one thread count; distinct by (K, job line)"})
+    return ctx.finish(level="other", explanation="PARTIAL: Lean proves schedule-level non-interference (every interleaving, any thread count) under the footprint premise, and the premise is re-derived on every run from the symbol table of the fresh build (no unlisted writable global, allow-listed globals never assigned, generator and clock thread-local); data races and the C memory model are NOT provable in the model and are explored with real threads (bitwise solo-vs-concurrent comparison) and ThreadSanitizer (sampling, not proof).", extra_cov={"rule": "a case = one job under one thread count; distinct by (K, job line)"})
